@@ -45,7 +45,8 @@ def outStr : Outcome → String
     s!"200 opened={strHex t} enc={if enc then "gzip" else "None"} clok={if clok then 1 else 0} hdr={hex hdr} body={hex body}"
 
 /-- `static np <path>` — normpath;
-    `static serve <enable 0|1> <dir> <request.path|None> <min_compression_length> (<file> <content> <ctype>)*` -/
+    `static serve <enable 0|1> <dir> <request.path|None> <min_compression_length> (<file> <content> <ctype>)*`;
+    `static e2e <dir> <request-target> <min_compression_length> (<file> <content> <ctype>)*` -/
 def drv (args : List String) : String :=
   match args with
   | ["np", p] =>
@@ -57,6 +58,13 @@ def drv (args : List String) : String :=
     match (unhex dir).bind utf8Decode, path, mcl.toInt?, parseEntries entries with
     | some dir, some path, some mcl, some tab =>
       outStr (onRequestComplete (mkEnv mcl tab) { enableStatic := en == "1", dir := dir } path)
+    | _, _, _, _ => "bad-op"
+  | "e2e" :: dir :: target :: mcl :: entries =>
+    match (unhex dir).bind utf8Decode, unhex target, mcl.toInt?, parseEntries entries with
+    | some dir, some target, some mcl, some tab =>
+      if reachesWeb target then
+        outStr (onRequestComplete (mkEnv mcl tab) { enableStatic := true, dir := dir } (some target))
+      else "notweb"
     | _, _, _, _ => "bad-op"
   | _ => "bad-op"
 
